@@ -179,6 +179,8 @@ pub struct BrokerCfg {
     /// The broker's PUBREL comes in any of its legal forms: short, with the reason code 0x92 (packet identifier
     /// not found - what a broker says that lost track of the PUBREC'd message), or with an explicit property length.
     pub pubrel_forms: bool,
+    /// Reason codes a refusing PUBACK / PUBREC may carry (a choice per refusal when there are several).
+    pub fail_codes: Vec<u8>,
     /// Successful acknowledgements come in any legal form (a choice per acknowledgement): shortest, explicit
     /// reason code, explicit (empty) property block, with a Reason String and two User Properties;
     /// SUBACK / UNSUBACK plain or with those properties.
@@ -219,6 +221,7 @@ impl Default for BrokerCfg {
             overrun: false,
             pubcomp_last: false,
             pubrel_forms: false,
+            fail_codes: vec![0x80],
             ack_forms: false,
             connack_extras: vec![0],
             wrong_kind_acks: false,
@@ -298,6 +301,9 @@ pub struct Cfg {
     /// Every disconnect() / disconnect_with() of the program is dropped at its first write, before the transport
     /// took a byte of it (the connection stays usable).
     pub disconnect_dropped_unwritten: bool,
+    /// Futures are dropped only at pending transport calls that have something to do, never while the client merely
+    /// waits for data or a timer (so that a cancelled run and its twin live through the same timeline).
+    pub no_cancel_while_idle: bool,
     pub age_aliases: Vec<u16>,
     /// Further absolute identifiers the counter may come round to (also when nothing is in flight), e.g. 1 = the
     /// counter has wrapped exactly.
@@ -369,6 +375,7 @@ impl Cfg {
             preludes: Vec::new(),
             must_reach: Vec::new(),
             disconnect_dropped_unwritten: false,
+            no_cancel_while_idle: false,
             age_aliases: Vec::new(),
             age_targets: Vec::new(),
             drain_until_dead: false,
